@@ -6,7 +6,8 @@
   serde_json's text layer (print, then parse) is outside the model: every number token carries the
   f64 serde_json/std make of it; it is exercised through all six entry points on every run.
 -/
-import Hs.Model.Hayson
+import Hs.Lemmas.HaysonGrid
+set_option linter.unusedSimpArgs false
 namespace Hs.C02
 open Hs Hs.Hayson
 
@@ -76,5 +77,493 @@ example : (match toJson (.num { v := { bits := 0x4415AF1D78B58C40, txt := "10000
 /-- … and 2^63 - 1024 (the largest double below 2^63) still travels as an integer -/
 example : (match toJson (.num { v := { bits := 0x43DFFFFFFFFFFFFF, txt := "9223372036854775000".toList }, unit := none }) with
     | .int i _ => i == 9223372036854774784 | _ => false) = true := by decide +kernel
+
+
+/-! ## Well-formedness: exactly what the round trip needs
+
+Each condition with the line of the Rust code that forces it (`e` = src/haystack/encoding/json/encode.rs,
+`d` = …/json/decode.rs, line numbers of the pinned tree; found by `#eval` on the model, witnesses below):
+
+* **dict / grid meta / column meta / row keys strictly ascending in code point order** — `d`:299
+  `dict.insert(key, value)` in `visit_map` collects the members into a `BTreeMap`: the entries come back
+  in key order, and a repeated key keeps only its last value.  (`Dict` *is* a `BTreeMap`, so every real
+  `Dict` satisfies this; the hand-rolled `Tags` of the model need it stated.)
+* **no key `_kind`** — `d`:268 `if key == "_kind"` treats the member as the type tag (returns at once for
+  `marker`/`remove`/`na`, `Err` for an unknown or non-string kind) and never inserts it.
+* **no key `ver` in a grid meta** — `d`:485 `meta.get_str("ver")` becomes the grid's version and `d`:488
+  `meta.remove("ver")` drops the tag whatever its type.  (Column meta and rows may have a `ver`.)
+* **units are database symbols** (`unitSymbol u = some u`) — `d`:369 `get_unit(unit.as_str())` in
+  `parse_number` fails on an unknown id and resolves an alias to its unit, whose symbol is what the
+  decoded `Number` carries.
+* **coordinates finite** — `e`:154/155 `impl Serialize for Coord` writes `lat`/`lng` as plain `f64`, which
+  serde_json prints as `null` for NaN/±inf; `d`:458/459 `dict.get_num("lat")` / `get_num("lng")` in
+  `parse_coord` then finds no number and fails (`coord_nonfinite_err`).  A `Number` is safe: `e`:83
+  `impl Serialize for Number` spells the three as strings.
+* the grid's `ver` is **not** needed for `C02_full`: `e`:180 `impl Serialize for Grid` never writes it and
+  `d` `parse_grid` assumes `GRID_FORMAT_VERSION`; `jImage` says `"3.0"`.  It is needed for the identity
+  (`plain`, `C02_identity` below), as is a present grid meta (`e`:184–188 writes `{}` for an absent one).
+* nothing is asked of strings, ref ids, uris, symbols, xstr types, column names (a column named like no
+  row tag, repeated column names), list lengths or nesting depth.
+-/
+
+def finiteF (f : Flt) : Bool := !(isNaN f || isInf f)
+
+mutual
+def wfj : Val → Bool
+  | .num n => match n.unit with
+    | some u => Hs.Zinc.unitSymbol u == some u
+    | none => true
+  | .coord a b => finiteF a && finiteF b
+  | .list xs => wfjs xs
+  | .dict d => wfTags d && strictSorted d.keys
+  | .grid md cols rows _ =>
+    (match md with
+      | .some t => wfTags t && strictSorted t.keys && !(t.keys.contains (s "ver"))
+      | .none => true) && wfCols cols && wfRows rows
+  | _ => true
+def wfjs : Vals → Bool
+  | .nil => true
+  | .cons v vs => wfj v && wfjs vs
+/-- every value well formed, no key `_kind` -/
+def wfTags : Tags → Bool
+  | .nil => true
+  | .cons k v t => k != s "_kind" && wfj v && wfTags t
+def wfCols : Cols → Bool
+  | .nil => true
+  | .cons _ md c =>
+    (match md with
+      | .some t => wfTags t && strictSorted t.keys
+      | .none => true) && wfCols c
+def wfRows : Rows → Bool
+  | .nil => true
+  | .cons r rs => wfTags r && strictSorted r.keys && wfRows rs
+end
+
+/-- the well-formedness the Hayson round trip needs (decidable: `wfj` is a Boolean function) -/
+def WFj (v : Val) : Prop := wfj v = true
+
+instance (v : Val) : Decidable (WFj v) := inferInstanceAs (Decidable (wfj v = true))
+
+/-! ## Scalars, all payloads -/
+
+/-- numbers: finite, NaN, ±INF; with a (database) unit and without; integral inside and outside the
+i64 range (`numImage` says what comes back) -/
+theorem rt_num (n : Num) (hu : ∀ u, n.unit = some u → Hs.Zinc.unitSymbol u = some u) :
+    fromJson (toJson (.num n)) = .ok (.num (numImage n)) := by
+  obtain ⟨v, unit⟩ := n
+  cases unit with
+  | some u =>
+    have hu' := hu u rfl
+    by_cases hN : isNaN v = true
+    · simp [toJson, encNumber, numImage, hN, fromJson, visitMap, s, knownKinds, insertTag, leChars, finish,
+        getStr, getTag, getNum, hu']
+    · by_cases hI : isInf v = true
+      · by_cases hS : isNeg v = true <;>
+        simp [toJson, encNumber, numImage, hN, hI, hS, fromJson, visitMap, s, knownKinds, insertTag, leChars, finish,
+          getStr, getTag, getNum, hu']
+      · simp [toJson, encNumber, numImage, hN, hI, jF64, fromJson, visitMap, s, knownKinds, insertTag, leChars, finish,
+          getStr, getTag, getNum, hu']
+  | none =>
+    by_cases hN : isNaN v = true
+    · simp [toJson, encNumber, numImage, hN, fromJson, visitMap, s, knownKinds, insertTag, leChars, finish,
+        getStr, getTag, getNum]
+    · by_cases hI : isInf v = true
+      · by_cases hS : isNeg v = true <;>
+        simp [toJson, encNumber, numImage, hN, hI, hS, fromJson, visitMap, s, knownKinds, insertTag, leChars, finish,
+          getStr, getTag, getNum]
+      · cases hE : exactInt v with
+        | none => simp [toJson, encNumber, numImage, hN, hI, hE, fromJson]
+        | some i =>
+          by_cases hR : (-9223372036854775808 ≤ i && i < 9223372036854775808) = true
+          · by_cases h0 : i = 0
+            · subst h0
+              simp [toJson, encNumber, numImage, hN, hI, hE, fromJson]
+            · simp [toJson, encNumber, numImage, hN, hI, hE, hR, h0, fromJson]
+          · simp [toJson, encNumber, numImage, hN, hI, hE, hR, fromJson]
+            intro h0; subst h0; simp at hR
+
+/-- a finite number that is not an integral value travelling as the integer 0 comes back bit for bit -/
+theorem rt_num_exact (n : Num) (hu : ∀ u, n.unit = some u → Hs.Zinc.unitSymbol u = some u)
+    (hN : isNaN n.v = false) (hI : isInf n.v = false) (h0 : n.unit.isSome ∨ exactInt n.v ≠ some 0) :
+    fromJson (toJson (.num n)) = .ok (.num n) := by
+  rw [rt_num n hu]
+  rcases h0 with h0 | h0
+  · cases hu' : n.unit with
+    | none => simp [hu'] at h0
+    | some u => simp [numImage, hN, hI, hu']
+  · simp [numImage, hN, hI, h0]
+
+/-- an integral number outside the i64 range is not saturated: it travels as a float token -/
+theorem rt_num_big (v : Flt) (i : Int) (hE : exactInt v = some i)
+    (hR : i < -9223372036854775808 ∨ 9223372036854775808 ≤ i) :
+    toJson (.num { v := v, unit := none }) = .flt v ∧
+    fromJson (toJson (.num { v := v, unit := none })) = .ok (.num { v := v, unit := none }) := by
+  have hN : isNaN v = false := by
+    cases h : isNaN v with
+    | false => rfl
+    | true =>
+      simp [isNaN] at h
+      simp [exactInt, h.1] at hE
+  have hI : isInf v = false := by
+    cases h : isInf v with
+    | false => rfl
+    | true =>
+      simp [isInf] at h
+      simp [exactInt, h.1] at hE
+  have hR' : (decide (-9223372036854775808 ≤ i) && decide (i < 9223372036854775808)) = false := by
+    rcases hR with h | h
+    · have : ¬ (-9223372036854775808 ≤ i) := by omega
+      simp [this]
+    · have : ¬ (i < 9223372036854775808) := by omega
+      simp [this]
+  constructor
+  · simp [toJson, encNumber, hN, hI, hE, hR']
+  · simp [toJson, encNumber, hN, hI, hE, hR', fromJson]
+
+theorem rt_ref (id : List Char) (dis : Option (List Char)) :
+    fromJson (toJson (.ref id dis)) = .ok (.ref id dis) := by
+  cases dis <;>
+  simp [toJson, kindObj, fromJson, visitMap, s, insertTag, finish, knownKinds, getStr, getTag, leChars]
+
+theorem rt_uri (x : List Char) : fromJson (toJson (.uri x)) = .ok (.uri x) := by
+  simp [toJson, kindObj, fromJson, visitMap, s, insertTag, finish, knownKinds, getStr, getTag]
+
+theorem rt_symbol (x : List Char) : fromJson (toJson (.sym x)) = .ok (.sym x) := by
+  simp [toJson, kindObj, fromJson, visitMap, s, insertTag, finish, knownKinds, getStr, getTag]
+
+theorem rt_xstr (ty v : List Char) : fromJson (toJson (.xstr ty v)) = .ok (.xstr ty v) := by
+  simp [toJson, kindObj, fromJson, visitMap, s, insertTag, finish, knownKinds, getStr, getTag, leChars]
+
+/-- dates come back as the text chrono printed (`str::parse::<Date>` re-reads it: trusted base) -/
+theorem rt_date (d : Date) : fromJson (toJson (.date d)) = .ok (lexDate d.txt) := by
+  simp [toJson, kindObj, fromJson, visitMap, s, insertTag, finish, knownKinds, getStr, getTag]
+
+theorem rt_time (t : Time) : fromJson (toJson (.time t)) = .ok (lexTime t.txt) := by
+  simp [toJson, kindObj, fromJson, visitMap, s, insertTag, finish, knownKinds, getStr, getTag]
+
+/-- timestamps: the RFC 3339 text, and the zone's city name unless the zone is UTC -/
+theorem rt_dateTime (t : DateTime) :
+    fromJson (toJson (.dateTime t)) =
+      .ok (lexDateTime t.txt (if t.tzid == s "UTC" then none else some t.zone)) := by
+  by_cases h : t.tzid = ['U', 'T', 'C']
+  · simp [toJson, kindObj, fromJson, visitMap, h, insertTag, finish, knownKinds, getStr, getTag, s]
+  · simp [toJson, kindObj, fromJson, visitMap, h, insertTag, finish, knownKinds, getStr, getTag, s, leChars]
+
+/-- finite coordinates come back bit for bit … -/
+theorem rt_coord (a b : Flt) (ha : finiteF a = true) (hb : finiteF b = true) :
+    fromJson (toJson (.coord a b)) = .ok (.coord a b) := by
+  simp [finiteF] at ha hb
+  simp [toJson, kindObj, fromJson, visitMap, jF64, ha, hb, s, insertTag, finish, knownKinds, getNum, getTag, leChars]
+
+/-- … and a non-finite one is written as `null` and refused (why `WFj` asks for finite coordinates) -/
+theorem coord_nonfinite_err (a b : Flt) (h : finiteF a = false ∨ finiteF b = false) :
+    fromJson (toJson (.coord a b)) = .err := by
+  by_cases ha : finiteF a = true
+  · have hb : finiteF b = false := by
+      rcases h with h | h
+      · rw [ha] at h; cases h
+      · exact h
+    simp [finiteF] at ha hb
+    by_cases hbn : isNaN b = true
+    · simp [toJson, kindObj, fromJson, visitMap, jF64, ha, hbn, s, insertTag, finish, knownKinds, getNum, getTag, leChars]
+    · have hbi := hb (by simpa using hbn)
+      simp [toJson, kindObj, fromJson, visitMap, jF64, ha, hbi, s, insertTag, finish, knownKinds, getNum, getTag, leChars]
+  · simp [finiteF] at ha
+    by_cases han : isNaN a = true
+    · by_cases hb : (isNaN b || isInf b) = true <;>
+      simp [toJson, kindObj, fromJson, visitMap, jF64, han, hb, s, insertTag, finish, knownKinds, getNum, getTag, leChars]
+    · have hai := ha (by simpa using han)
+      by_cases hb : (isNaN b || isInf b) = true <;>
+      simp [toJson, kindObj, fromJson, visitMap, jF64, hai, hb, s, insertTag, finish, knownKinds, getNum, getTag, leChars]
+
+/-! ## Containers
+
+The mutual induction only establishes that every member/element decodes to the image of the value it
+was written from (`view (tagsJson t) = okView …`); that the visitor then collects strictly ascending
+`_kind`-free entries in the order they were written is `Hs.Hayson.runR_sorted` (no induction on values). -/
+
+theorem jImageTags_keys : ∀ t : Tags, (jImageTags t).toList.map (·.1) = t.keys
+  | .nil => rfl
+  | .cons k v t => by simp [jImageTags, Tags.toList, Tags.keys, jImageTags_keys t]
+
+theorem wfTags_noKind : ∀ t : Tags, wfTags t = true → ∀ p ∈ (jImageTags t).toList, p.1 ≠ s "_kind"
+  | .nil, _, p, hp => by simp [jImageTags, Tags.toList] at hp
+  | .cons k v t, h, p, hp => by
+    simp [wfTags] at h
+    simp [jImageTags, Tags.toList] at hp
+    rcases hp with e | hp
+    · subst e; exact h.1.1
+    · exact wfTags_noKind t h.2 p hp
+
+/-- **the key lemma for containers**, on the encoder's members: for strictly ascending `_kind`-free tags
+whose values decode to their images, the visitor started with `kind` and the entries `d` (all below the
+keys of `t`) ends in `finish kind (d ++ image entries)` -/
+theorem visitMap_tagsJson (t : Tags) (kind : List Char) (d : List (List Char × Val))
+    (hv : view (tagsJson t) = okView (jImageTags t).toList) (hw : wfTags t = true)
+    (hs : ((d.map (·.1)) ++ t.keys).Pairwise (fun a b => ltChars a b = true)) :
+    visitMap (tagsJson t) kind d = finish kind (d ++ (jImageTags t).toList) := by
+  rw [visitMap_eq_runR, hv]
+  exact runR_sorted _ kind d (wfTags_noKind t hw) (by simpa [jImageTags_keys] using hs)
+
+/-- a dict object `{…}` written from sorted tags decodes to the dict of the images -/
+theorem obj_tags (t : Tags) (hv : view (tagsJson t) = okView (jImageTags t).toList)
+    (hw : wfTags t = true) (hs : strictSorted t.keys = true) :
+    fromJson (.obj (tagsJson t)) = .ok (.dict (jImageTags t)) := by
+  have := fromJson_obj_sorted (tagsJson t) (jImageTags t).toList hv (wfTags_noKind t hw)
+    (by rw [jImageTags_keys]; exact hs)
+  rw [this, Tags.ofList_toList]
+
+theorem obj_nil : fromJson (.obj .nil) = .ok (.dict .nil) := by
+  simp [fromJson, visitMap, finish, s, Tags.ofList]
+
+mutual
+theorem rt_val : (v : Val) → wfj v = true → fromJson (toJson v) = .ok (jImage v)
+  | .null, _ => by simp [toJson, fromJson, jImage]
+  | .remove, _ => by simp [toJson, kindObj, fromJson, visitMap, s, jImage]
+  | .marker, _ => by simp [toJson, kindObj, fromJson, visitMap, s, jImage]
+  | .na, _ => by simp [toJson, kindObj, fromJson, visitMap, s, jImage]
+  | .bool b, _ => by simp [toJson, fromJson, jImage]
+  | .num n, h => by
+    have := rt_num n (by
+      intro u hu
+      simp [wfj, hu] at h
+      exact h)
+    simpa [jImage] using this
+  | .str x, _ => by simp [toJson, fromJson, jImage]
+  | .uri x, _ => by simpa [jImage] using rt_uri x
+  | .ref id dis, _ => by simpa [jImage] using rt_ref id dis
+  | .sym x, _ => by simpa [jImage] using rt_symbol x
+  | .date d, _ => by simpa [jImage] using rt_date d
+  | .time t, _ => by simpa [jImage] using rt_time t
+  | .dateTime t, _ => by simpa [jImage] using rt_dateTime t
+  | .coord a b, h => by
+    simp [wfj] at h
+    simpa [jImage] using rt_coord a b h.1 h.2
+  | .xstr ty v, _ => by simpa [jImage] using rt_xstr ty v
+  | .list xs, h => by
+    have ih := rt_vals xs (by simpa [wfj] using h)
+    rw [toJson, fromJson_arr _ _ ih, jImage, Vals.ofList_toList]
+  | .dict d, h => by
+    simp [wfj] at h
+    rw [toJson, jImage]
+    exact obj_tags d (rt_tags d h.1) h.1 h.2
+  | .grid (.some t) cols rows ver, h => by
+    simp [wfj] at h
+    have hm := obj_tags t (rt_tags t h.1.1.1.1) h.1.1.1.1 h.1.1.1.2
+    have hc := fromJson_arr _ _ (rt_cols cols h.1.2)
+    have hr := fromJson_arr _ _ (rt_rows rows h.2)
+    have hver : ∀ p ∈ (jImageTags t).toList, p.1 ≠ s "ver" := by
+      intro p hp e
+      have : p.1 ∈ t.keys := by
+        rw [← jImageTags_keys]; exact List.mem_map_of_mem hp
+      exact h.1.1.2 (e ▸ this)
+    simp only [toJson]
+    rw [fromJson_gridObj _ _ _ _ _ _ hm hc hr, finish_grid _ _ _ hver, jImage,
+      Cols.ofList_toList, Rows.ofList_toList]
+  | .grid .none cols rows ver, h => by
+    simp [wfj] at h
+    have hc := fromJson_arr _ _ (rt_cols cols h.1)
+    have hr := fromJson_arr _ _ (rt_rows rows h.2)
+    simp only [toJson]
+    rw [fromJson_gridObj _ _ _ _ _ _ obj_nil hc hr, finish_grid _ _ _ (by simp [Tags.toList]), jImage,
+      Cols.ofList_toList, Rows.ofList_toList]
+theorem rt_vals : (vs : Vals) → wfjs vs = true → seq (listJson vs) = .ok (jImages vs).toList
+  | .nil, _ => by simp [listJson, seq, jImages, Vals.toList]
+  | .cons v vs, h => by
+    simp [wfjs] at h
+    simp only [listJson, jImages, Vals.toList]
+    exact seq_cons _ _ _ _ (rt_val v h.1) (rt_vals vs h.2)
+theorem rt_tags : (t : Tags) → wfTags t = true → view (tagsJson t) = okView (jImageTags t).toList
+  | .nil, _ => by simp [tagsJson, view, jImageTags, Tags.toList, okView]
+  | .cons k v t, h => by
+    simp [wfTags] at h
+    have ih := rt_tags t h.2
+    simp only [okView] at ih ⊢
+    simp [tagsJson, view, jImageTags, Tags.toList, rt_val v h.1.2, ih]
+theorem rt_cols : (c : Cols) → wfCols c = true → seq (colsJson c) = .ok ((jImageCols c).toList.map colVal)
+  | .nil, _ => by simp [colsJson, seq, jImageCols, Cols.toList]
+  | .cons n (.some t) c, h => by
+    simp [wfCols] at h
+    have ht := obj_tags t (rt_tags t h.1.1) h.1.1 h.1.2
+    simp only [colsJson, jImageCols, Cols.toList, List.map_cons]
+    exact seq_cons _ _ _ _ (fromJson_col_some n _ _ ht) (rt_cols c h.2)
+  | .cons n .none c, h => by
+    simp [wfCols] at h
+    simp only [colsJson, jImageCols, Cols.toList, List.map_cons]
+    exact seq_cons _ _ _ _ (fromJson_col_none n) (rt_cols c h)
+theorem rt_rows : (r : Rows) → wfRows r = true → seq (rowsJson r) = .ok ((jImageRows r).toList.map Val.dict)
+  | .nil, _ => by simp [rowsJson, seq, jImageRows, Rows.toList]
+  | .cons r rs, h => by
+    simp [wfRows] at h
+    simp only [rowsJson, jImageRows, Rows.toList, List.map_cons]
+    exact seq_cons _ _ _ _ (obj_tags r (rt_tags r h.1.1) h.1.1 h.1.2) (rt_rows rs h.2)
+end
+
+/-- **C02 for the model**: decoding the encoder's tree of a well-formed value gives its image -/
+theorem C02_holds : C02_full WFj := fun v h => rt_val v h
+
+theorem rt_list (xs : Vals) (h : WFj (.list xs)) :
+    fromJson (toJson (.list xs)) = .ok (.list (jImages xs)) := by
+  simpa [jImage] using rt_val _ h
+
+theorem rt_dict (d : Tags) (h : WFj (.dict d)) :
+    fromJson (toJson (.dict d)) = .ok (.dict (jImageTags d)) := by
+  simpa [jImage] using rt_val _ h
+
+/-- the grid meta that comes back: an absent one as an empty one -/
+def jImageMeta (md : OTags) : Tags :=
+  match md with
+  | .some t => jImageTags t
+  | .none => .nil
+
+/-- no column, row, cell or meta tag is lost; an absent meta comes back as an empty one -/
+theorem rt_grid (md : OTags) (cols : Cols) (rows : Rows) (ver : List Char) (h : WFj (.grid md cols rows ver)) :
+    fromJson (toJson (.grid md cols rows ver)) =
+      .ok (.grid (.some (jImageMeta md)) (jImageCols cols) (jImageRows rows) (s "3.0")) := by
+  cases md <;> simpa [jImage, jImageMeta] using rt_val _ h
+
+/-! ## Non-vacuity: a concrete nested value satisfies `WFj` -/
+
+def f64_1 : Flt := { bits := 0x3FF0000000000000, txt := ['1'] }
+def f64_half : Flt := { bits := 0x3FE0000000000000, txt := "0.5".toList }
+
+/-- a grid with meta, a column with meta, rows with a Null cell, a dict inside a list, a Ref with dis,
+a number with unit, a coordinate -/
+def sample : Val :=
+  .grid
+    (.some (.cons (s "dis") (.str (s "Site grid")) (.cons (s "hisEnd") (.num { v := f64_1, unit := some (s "m") }) .nil)))
+    (.cons (s "id") (.some (.cons (s "dis") (.str (s "Id")) (.cons (s "x") .marker .nil)))
+      (.cons (s "vals") .none .nil))
+    (.cons (.cons (s "id") (.ref (s "a-1") (some (s "Site \"A\""))) (.cons (s "vals") .null .nil))
+      (.cons
+        (.cons (s "id") (.ref (s "b") none)
+          (.cons (s "vals")
+            (.list (.cons (.dict (.cons (s "area") (.num { v := f64_half, unit := some (s "ft²") })
+                (.cons (s "geo") (.coord f64_1 f64_half) .nil))) (.cons .na .nil))) .nil))
+        .nil))
+    (s "3.0")
+
+theorem sample_wf : WFj sample := by decide +kernel
+
+example : fromJson (toJson sample) = .ok (jImage sample) := C02_holds sample sample_wf
+
+/-! ## Each condition of `WFj` is needed (witnesses on the model) -/
+
+def decodesTo (v : Val) (p : Val → Bool) : Bool := okIs (fromJson (toJson v)) p
+
+/-- keys out of order come back sorted: `{b, a}` ↦ `{a, b}` -/
+example : decodesTo (.dict (.cons (s "b") .marker (.cons (s "a") .marker .nil)))
+    (fun v => match v with | .dict (.cons k _ _) => k == s "a" | _ => false) = true := by decide +kernel
+/-- a repeated key keeps its last value only -/
+example : decodesTo (.dict (.cons (s "a") .marker (.cons (s "a") .na .nil)))
+    (fun v => match v with | .dict (.cons _ .na .nil) => true | _ => false) = true := by decide +kernel
+/-- a tag named `_kind` is taken for the type tag: `{_kind: "marker", a}` ↦ Marker; `{_kind: M}` is refused -/
+example : decodesTo (.dict (.cons (s "_kind") (.str (s "marker")) (.cons (s "a") .marker .nil)))
+    (fun v => match v with | .marker => true | _ => false) = true := by decide +kernel
+example : (fromJson (toJson (.dict (.cons (s "_kind") .marker .nil)))).tag = "err" := by decide +kernel
+/-- a grid meta tag `ver` is swallowed (and becomes the version when it is a Str) -/
+example : decodesTo (.grid (.some (.cons (s "ver") (.str (s "2.0")) .nil)) .nil .nil (s "3.0"))
+    (fun v => match v with | .grid (.some .nil) _ _ ver => ver == s "2.0" | _ => false) = true := by decide +kernel
+/-- a unit given by an alias comes back as the unit's symbol; an unknown unit is refused -/
+example : decodesTo (.num { v := f64_1, unit := some (s "meter") })
+    (fun v => match v with | .num n => n.unit == some (s "m") | _ => false) = true := by decide +kernel
+example : (fromJson (toJson (.num { v := f64_1, unit := some (s "no_such_unit") }))).tag = "err" := by decide +kernel
+
+/-! ## The identity: values that are their own image -/
+
+mutual
+/-- nothing in the value is re-spelled by the round trip: no date/time/timestamp (those come back as
+chrono re-reads their text), numbers that are their own `numImage` (finite and not `-0.0` unit-less — see
+`rt_num_exact`; or already canonical), grids with a meta and version `"3.0"` -/
+def plain : Val → Bool
+  | .num n => numImage n == n
+  | .date _ => false
+  | .time _ => false
+  | .dateTime _ => false
+  | .list xs => plains xs
+  | .dict d => plainTags d
+  | .grid md cols rows ver =>
+    (match md with
+      | .some t => plainTags t
+      | .none => false) && plainCols cols && plainRows rows && ver == s "3.0"
+  | _ => true
+def plains : Vals → Bool
+  | .nil => true
+  | .cons v vs => plain v && plains vs
+def plainTags : Tags → Bool
+  | .nil => true
+  | .cons _ v t => plain v && plainTags t
+def plainCols : Cols → Bool
+  | .nil => true
+  | .cons _ md c =>
+    (match md with
+      | .some t => plainTags t
+      | .none => true) && plainCols c
+def plainRows : Rows → Bool
+  | .nil => true
+  | .cons r rs => plainTags r && plainRows rs
+end
+
+mutual
+theorem jImage_plain : (v : Val) → plain v = true → jImage v = v
+  | .null, _ => by simp [jImage]
+  | .remove, _ => by simp [jImage]
+  | .marker, _ => by simp [jImage]
+  | .na, _ => by simp [jImage]
+  | .bool _, _ => by simp [jImage]
+  | .num n, h => by
+    simp [plain] at h
+    simp [jImage, h]
+  | .str _, _ => by simp [jImage]
+  | .uri _, _ => by simp [jImage]
+  | .ref _ _, _ => by simp [jImage]
+  | .sym _, _ => by simp [jImage]
+  | .date _, h => by simp [plain] at h
+  | .time _, h => by simp [plain] at h
+  | .dateTime _, h => by simp [plain] at h
+  | .coord _ _, _ => by simp [jImage]
+  | .xstr _ _, _ => by simp [jImage]
+  | .list xs, h => by
+    simp [plain] at h
+    simp [jImage, jImages_plain xs h]
+  | .dict d, h => by
+    simp [plain] at h
+    simp [jImage, jImageTags_plain d h]
+  | .grid (.some t) cols rows ver, h => by
+    simp [plain] at h
+    simp [jImage, jImageTags_plain t h.1.1.1, jImageCols_plain cols h.1.1.2, jImageRows_plain rows h.1.2, h.2]
+  | .grid .none cols rows ver, h => by simp [plain] at h
+theorem jImages_plain : (vs : Vals) → plains vs = true → jImages vs = vs
+  | .nil, _ => by simp [jImages]
+  | .cons v vs, h => by
+    simp [plains] at h
+    simp [jImages, jImage_plain v h.1, jImages_plain vs h.2]
+theorem jImageTags_plain : (t : Tags) → plainTags t = true → jImageTags t = t
+  | .nil, _ => by simp [jImageTags]
+  | .cons k v t, h => by
+    simp [plainTags] at h
+    simp [jImageTags, jImage_plain v h.1, jImageTags_plain t h.2]
+theorem jImageCols_plain : (c : Cols) → plainCols c = true → jImageCols c = c
+  | .nil, _ => by simp [jImageCols]
+  | .cons n (.some t) c, h => by
+    simp [plainCols] at h
+    simp [jImageCols, jImageTags_plain t h.1, jImageCols_plain c h.2]
+  | .cons n .none c, h => by
+    simp [plainCols] at h
+    simp [jImageCols, jImageCols_plain c h]
+theorem jImageRows_plain : (r : Rows) → plainRows r = true → jImageRows r = r
+  | .nil, _ => by simp [jImageRows]
+  | .cons r rs, h => by
+    simp [plainRows] at h
+    simp [jImageRows, jImageTags_plain r h.1, jImageRows_plain rs h.2]
+end
+
+/-- **the round trip is the identity** on well-formed plain values: every component comes back, in
+particular every finite number bit for bit and every tag, cell, column and row -/
+theorem C02_identity (v : Val) (hw : WFj v) (hp : plain v = true) : fromJson (toJson v) = .ok v := by
+  rw [C02_holds v hw, jImage_plain v hp]
+
+example : plain sample = true := by decide +kernel
+example : fromJson (toJson sample) = .ok sample := C02_identity sample sample_wf (by decide +kernel)
 
 end Hs.C02
